@@ -273,9 +273,17 @@ def mk_str(text):
     return mk_ref(s, "&str")
 
 
+TABLE = ("table",)     # .conc of a read-only constant table (generated jump tables): shared, never duplicated
+
+
 def copy_node(n, memo=None, shallow_targets=True):
     """Value copy: materialised structure is duplicated, pointees are shared."""
     c = Node(n.root, n.idxs, n.path, n.ty)
+    if n.conc is TABLE:
+        c.conc = TABLE
+        c.length = n.length
+        c.elems = n.elems
+        return c
     c.term = n.term
     c.target = n.target
     c.tag = n.tag
@@ -310,6 +318,11 @@ def clone_graph(n, memo):
         return c
     c = Node(n.root, n.idxs, n.path, n.ty)
     memo[id(n)] = c
+    if n.conc is TABLE:
+        c.conc = TABLE
+        c.length = n.length
+        c.elems = n.elems
+        return c
     c.term = n.term
     c.tag = n.tag
     c.length = n.length
@@ -575,6 +588,7 @@ class Engine:
         self.npaths = 0
         self.deadline = None
         self.max_recursion = 1      # how many activations of one function may be on the stack (bounded recursion)
+        self.path_hook = None
         self.cut_blocks = set()     # blocks of the explored function at which a second visit ends the path (segment cut)
         self.inline_cyclic = False  # bounded-loop mode: cyclic crate functions are executed too (max_visits per block)
         self.auto_inline_depth = 5
@@ -600,7 +614,8 @@ class Engine:
         for name, fn in self.funcs.items():
             if fn.kind != "fn" or "{closure" in name or "promoted" in name:
                 continue
-            m = re.search(r"<impl at (src/[\w/]+\.rs):(\d+):(\d+): \d+:(\d+)>::([A-Za-z_]\w*)$", name)
+            name = re.sub(r"#\d+$", "", name)     # same-named bodies stay ambiguous (never silently the first)
+            m = re.search(r"<impl at (src/[\w/]+\.rs):(\d+):(\d+): \d+:(\d+)>::([A-Za-z_]\w*(?:::[A-Za-z_]\w*)*)$", name)
             if m:
                 key = (m.group(1), int(m.group(2)), int(m.group(3)), int(m.group(4)))
                 if key not in impl_cache:
@@ -856,6 +871,10 @@ class Engine:
             return cache[key]
         fn = None
         cands = [strip_lifetimes(text), key, re.sub(r"::<[^>]*>", "", strip_lifetimes(text))]
+        gen = self._generated_item(text)
+        if gen is not None:
+            cache[key] = gen
+            return gen
         for name, f in self.funcs.items():
             if f.kind != "fn" or "promoted" in name:
                 nn = strip_lifetimes(name)
@@ -878,6 +897,49 @@ class Engine:
                 val = None
         cache[key] = val
         return val
+
+    def _generated_item(self, text):
+        """Constants and statics that a derive macro nests inside generated functions (logos jump tables):
+        `<T as Logos<'s>>::lex::goto15::LUT`, `<T as Logos<'s>>::lex::pattern1::LUT`,
+        `<static(DefId(.. ~ crate[..]::..::lex::COMPACT_TABLE_0))>`.  Same-named items are refused, never guessed."""
+        t = strip_lifetimes(text).strip()
+        ms = re.fullmatch(r"<static\(DefId\([^~]*~ [^)]*?::([A-Za-z_]\w*)\)\)>", t)
+        if ms:
+            nm = ms.group(1)
+            f = self.funcs.get(nm)
+            if f is None or f.kind != "static" or (nm + "#2") in self.funcs:
+                return None
+            body = self.eval_straight(f)
+            if body is not None and body.elems is not None and len(body.elems) >= 16 and body.conc is None:
+                body.conc = TABLE
+            r = mk_ref(body, "&" + (f.ret_ty or ""))
+            return r
+        if "::lex::" not in t:
+            return None
+        norm = normalise_callee(t)
+        tail = norm.split("::lex::", 1)[1]
+        hits = []
+        for name, f in self.funcs.items():
+            if f.kind == "fn":
+                continue
+            base = re.sub(r"#\d+$", "", name)
+            if base == tail:
+                hits.append(f)
+                continue
+            m = re.search(r"<impl at (src/[\w/]+\.rs):(\d+):(\d+): \d+:(\d+)>::(.*)$", base)
+            if m and m.group(5).endswith("lex::" + tail):
+                trait, selfty = impl_header(self.repo_root, m.group(1), int(m.group(2)), int(m.group(3)), int(m.group(4)))
+                if selfty and norm.startswith("<%s as " % selfty):
+                    hits.append(f)
+        if len(hits) != 1:
+            return None
+        try:
+            v = self.eval_straight(hits[0])
+        except Unsupported:
+            return None
+        if v is not None and v.elems is not None and len(v.elems) >= 16 and v.conc is None:
+            v.conc = TABLE
+        return v
 
     def eval_straight(self, fn):
         """Evaluate a body without branches (promoted constants)."""
@@ -1165,7 +1227,13 @@ class Engine:
     def _end(self, st, outcome, detail=None, ret=None, site=None):
         self.outcomes[outcome] = self.outcomes.get(outcome, 0) + 1
         self.npaths += 1
-        if self.keep_path is None or self.keep_path(outcome):
+        keep = self.keep_path is None or self.keep_path(outcome)
+        if self.path_hook is not None:
+            # obligations that judge every path on the fly (and keep only the interesting ones)
+            pth = Path(st, outcome, detail, ret, site)
+            if self.path_hook(pth) or keep:
+                self.paths.append(pth)
+        elif keep:
             self.paths.append(Path(st, outcome, detail, ret, site))
         if self.npaths > self.max_paths:
             raise Unsupported("more than %d paths" % self.max_paths)
